@@ -1,7 +1,7 @@
 """C08 Time integration agrees with MuJoCo C.
 
 Space: every DFS-ordered tree with <=3 bodies x every joint-kind assignment from {weld, hinge, ball, free,
-hinge+slide} x joint damping {off, on} x actuator set {none, filter, filterexact (+actearly), integrator with
+hinge+slide} x joint damping {off, on} x actuator set {none, filter with actrange, filterexact with actrange (+actearly), integrator with
 actrange, muscle} -> one model each; every model is stepped under 5 integrator configurations (Euler, Euler with
 EULERDAMP disabled (damped models only), RK4, implicitfast, implicit) from 2 grid states (unnormalised quaternions, non-zero qvel,
 ctrl, act; state 2 under applied generalized forces; one world each; in world 0 the limited activation starts next to its range so the clamp fires)
@@ -82,10 +82,10 @@ def _actuators(scn):
   if scn["act"] == "none":
     return ""
   if scn["act"] == "filter":
-    a = f'<general {j} dyntype="filter" dynprm="{tau}" gainprm="1.5" biastype="affine" biasprm="0.1 -0.5 -1.5"/>'
+    a = f'<general {j} dyntype="filter" dynprm="{tau}" gainprm="1.5" biastype="affine" biasprm="0.1 -0.5 -1.5" actlimited="true" actrange="-0.5 0.45"/>'
   elif scn["act"] == "filterexact":
     a = (
-      f'<general {j} dyntype="filterexact" dynprm="{tau * 0.6:g}" gainprm="-0.8" biastype="affine" biasprm="0 0 -1.2"/>'
+      f'<general {j} dyntype="filterexact" dynprm="{tau * 0.6:g}" gainprm="-0.8" biastype="affine" biasprm="0 0 -1.2" actlimited="true" actrange="-0.45 0.5"/>'
       f'<general {j} dyntype="filterexact" dynprm="{tau:g}" gainprm="0.5" actearly="true"/>'
     )
   elif scn["act"] == "intlim":
